@@ -161,6 +161,14 @@ M = [
      "    dm = np.empty((m * (m - 1)) // 2, dtype=dtype)\n    k = 0\n    for i in range(0, m - 1):\n        for j in range(i + 1, m):\n            dm[k] = metric(strings[i], strings[j], **kwargs)\n            k += 1\n"
      "    _memo[_key] = dm.copy()\n    return dm\n",
      "pdist memoises by (number of strings, first string, last string, dtype, metric): two inputs that agree in these and differ in between collide"),
+    ("M20y", "C20", DI,
+     "    if metric is None:\n        metric = levenshtein_distance\n    strings = list(strings)\n    m = len(strings)\n    dm = np.empty((m * (m - 1)) // 2, dtype=dtype)\n",
+     "    if metric is None:\n        metric = levenshtein_distance\n    np.random.seed(0)\n    strings = list(strings)\n    m = len(strings)\n    dm = np.empty((m * (m - 1)) // 2, dtype=dtype)\n",
+     "pdist (deterministic) reseeds NumPy's global generator (left-over line): seed; pdist; randomised call no longer gives the seed's result"),
+    ("M20z", "C20", ST,
+     "    n = ensure_numpy(n)\n    N = np.sum(n)\n    return np.sum(n * (n - 1)) / (N * (N - 1))\n",
+     "    n = ensure_numpy(n)\n    N = np.sum(n)\n    if N > 10**6:\n        n = n[np.random.permutation(len(n))]\n    else:\n        np.random.rand()\n    return np.sum(n * (n - 1)) / (N * (N - 1))\n",
+     "pc_n (deterministic) draws from NumPy's global generator: seed; pc_n; randomised call no longer gives the seed's result"),
     ("M20t", "C20", NN, "        return _make_output(ans, output_type, self.seqs, seqs2)\n\n\ndef _hamming_replacement",
      "        self._last = ans\n        return _make_output(ans, output_type, self.seqs, seqs2)\n\n\ndef _hamming_replacement",
      "benign control: SymdelDB.lookup keeps a reference to its last answer on the object (caller-visible object state changes, later results do not)"),
